@@ -117,3 +117,9 @@ Section PolyExprs.
   Definition dev (n : nat) (h g : K) (p : list K) : list K := d_eval_over_domain F p n h g.
   Definition sev (n : nat) (h g : K) (s : list (nat * K)) : res (list K) := s_eval_over_domain F s n h g.
 End PolyExprs.
+
+(* the stored representation of a value: coefficients through an encoding [r] (for Fp: the Montgomery
+   limb vector of the residue), sparse degrees as integers *)
+Definition stored_sparse {K T : Type} (r : K -> T) (s : list (nat * K)) : list (Z * T) :=
+  map (fun t => (Z.of_nat (fst t), r (snd t))) s.
+Definition stored_dense {K T : Type} (r : K -> T) (p : list K) : list T := map r p.
